@@ -152,7 +152,7 @@ impl Prop for C18 {
         ]
     }
     fn cases(tier: Tier) -> u32 {
-        tier.pick(3_000, 100_000)
+        tier.pick(3_000, 300_000)
     }
     fn strategy(tier: Tier) -> BoxedStrategy<Case> {
         let mut p = params(tier);
